@@ -1334,6 +1334,20 @@ class RunMonitor:
         nmin, nmax = int(options["n_train_min"]), int(options["n_train_max"])
         if not (min(n, nmin) <= size <= max(nmax, nmin)):
             self.v("C15/training-set-size-out-of-range", size=int(size), n_logged=int(n), n_train_min=nmin, n_train_max=nmax)
+        else:
+            # buffer_ntrain is documented as the MAXIMUM number of training points removed for being too far: it configures
+            # a second floor, n_train_max - buffer_ntrain (when that many points are logged)
+            try:
+                floor2 = min(n, max(nmin, nmax - int(options["buffer_ntrain"])))
+            except Exception:
+                floor2 = None
+            if floor2 is not None:
+                self.c("C15.buffer_floor_checks")
+                if floor2 > nmin:
+                    self.c("C15.buffer_floor_above_n_train_min")
+                if size < floor2:
+                    self.v("C15/training-set-size-out-of-range", size=int(size), n_logged=int(n), n_train_min=nmin, n_train_max=nmax,
+                           buffer_ntrain=int(options["buffer_ntrain"]), floor="n_train_max - buffer_ntrain")
         tol = 1e-12
         # rounding bound of a scaled squared distance recomputed from the stored coordinates: with a very short length scale,
         # two points at EQUAL true distance (mirror images about u on the mesh) differ by ~eps*|x|*|x-u|/ls^2, far above 1e-12
